@@ -47,11 +47,13 @@ def run_one(item):
         shutil.copytree(os.path.join(REPO, 'include'), os.path.join(tmp, 'include'))
         if isinstance(path, list):
             # in-place edits: (file relative to include/Spectra, old text, new text); old must occur exactly once
-            for rel, old, new in path:
+            for ed in path:
+                rel, old, new = ed[:3]
+                every = len(ed) > 3 and ed[3] == 'all'     # replace every occurrence (at least one)
                 fp = os.path.join(tmp, 'include', 'Spectra', rel)
                 with open(fp, newline='') as fh:
                     src = fh.read()
-                if src.count(old) != 1:
+                if (src.count(old) < 1) if every else (src.count(old) != 1):
                     return name, False, 'stale mutant: %r occurs %d times in %s' % (old[:50], src.count(old), rel)
                 with open(fp, 'w', newline='') as fh:
                     fh.write(src.replace(old, new))
